@@ -878,7 +878,7 @@ func (runInfo *runInfoStruct) runDeleteStmt(stmt *ast.DeleteStmt) {
 	if runInfo.err != nil {
 		return
 	}
-	item := runInfo.rv
+	item := containerOperand(runInfo.rv)
 
 	if stmt.Key != nil {
 		runInfo.expr = stmt.Key
@@ -889,10 +889,6 @@ func (runInfo *runInfoStruct) runDeleteStmt(stmt *ast.DeleteStmt) {
 		if runInfo.rv.Kind() == reflect.Interface && !runInfo.rv.IsNil() {
 			runInfo.rv = runInfo.rv.Elem()
 		}
-	}
-
-	if item.Kind() == reflect.Interface && !item.IsNil() {
-		item = item.Elem()
 	}
 
 	switch item.Kind() {
